@@ -128,8 +128,14 @@ def run_c(binary, lines, timeout=600, crashes=None, max_crashes=3):
         if rc == 0:
             res.extend(out)
             break
-        if crashes is None or ncr >= max_crashes:
+        if crashes is None:
             raise vlib.CheckError("C harness failed rc=%d: %s" % (rc, err[-1500:]))
+        if ncr >= max_crashes:
+            # too many aborts: the remaining cases are not run on the C side (empty results, listed as skipped)
+            for j in range(start, len(lines)):
+                res.append([])
+                crashes.append((j, "skipped after %d aborts" % max_crashes))
+            break
         lo, hi = 0, len(lines) - start          # smallest prefix length that crashes is in (lo, hi]
         while hi - lo > 1:
             mid = (lo + hi) // 2
